@@ -105,6 +105,7 @@ def run(ctx: Ctx) -> None:
     feature_parity(ctx, py, rs, rows, ok_base)
     fetch_and_low_power(ctx, py, rs)
     pointer_destination_conflict(ctx, py, rs, rows)
+    ir_frame(ctx, rs, rows, ok_base)
     from .c01 import lookahead
     lookahead(ctx, py, rule="C06.9/lookahead-isolation", why="the Rust core decodes one instruction from the bytes at PC and never looks at what follows it, so the cores would disagree on length and effect")
     ctx.extra["exhaustive"] = True
@@ -341,6 +342,26 @@ def feature_parity(ctx: Ctx, py: PyProgram, rs: RustProgram, rows: dict, ok_base
             ctx.violation("C06.8/counted-parity", key_of(rs_file(), f"execute_with opcode 0x{op:02X} {r.name}", "loop on I"),
                           f"opcode 0x{op:02X} ({r.name}): the Python lift {'loops on I' if pyloop[op] else 'does not loop on I'}, the Rust arm {'reads I' if reads_i else 'never reads I (single pass, I unchanged)'}", f"{isa.OPTABLE}:{r.ln}")
     ctx.instance("C06.8/counted-parity", "opcodes: Python IL loops on I <=> Rust arm reads I", nl, 230)
+    # (b4) counted instructions with I = 0: the loop body does not run; the flags written outside it must be the same in both cores
+    from .c04 import _loop_body
+    nz = 0
+    py_straight: dict[int, set] = collections.defaultdict(set)
+    for c in lifted:
+        if c.status == "ok" and not c.lift_exc and pyloop[c.opcode]:
+            lb = _loop_body(c.il_terms)
+            if lb is None:
+                continue
+            outside = [st for i, st in enumerate(c.il_terms) if not (lb[0] <= i < lb[1])]
+            py_straight[c.opcode] |= set(ilfacts.flags_written(outside))
+    for op in sorted(o for o in seen_ops if pyloop[o]):
+        r = rows[op]
+        nz += 1
+        rf = re_.for_opcode(op, zero_trip=True).flags_straight
+        if rf != py_straight[op]:
+            ctx.violation("C06.8/zero-trip-flags", key_of(rs_file(), f"execute_with opcode 0x{op:02X} {r.name}", f"flags outside the loop {sorted(rf)} vs {sorted(py_straight[op])}"),
+                          f"opcode 0x{op:02X} ({r.name}) with I = 0 (the loop body never runs): the Rust arm writes flags {sorted(rf) or 'none'} outside its loop, "
+                          f"the Python IL writes {sorted(py_straight[op]) or 'none'} outside its loop - the cores leave different flags", f"{isa.OPTABLE}:{r.ln}")
+    ctx.instance("C06.8/zero-trip-flags", "counted opcodes: flags written outside the byte loop (so also when I = 0), Rust arm vs Python IL", nz, 20)
     ctx.instance("C06.7/flag-signature", "opcodes: flags the Rust arm may write (pruned may-effect analysis, save/restore pairs excluded) == flags written by the Python IL", nf, 230)
     # (c) control-transfer target formulas at a page edge (shared with C05)
     from .c05 import EDGE_ADDR, rust_formulas
@@ -350,6 +371,9 @@ def feature_parity(ctx: Ctx, py: PyProgram, rs: RustProgram, rows: dict, ok_base
     edge = [sw.run_case(None, op, None, ("analyze", "lift"), addr=EDGE_ADDR) for op in cf_ops]
     rust_formulas(ctx, py, rs, rows, edge, addr=EDGE_ADDR, tag="@page-edge")
     rust_formulas(ctx, py, rs, rows, [sw.run_case(None, op, None, ("analyze", "lift")) for op in cf_ops])
+    # the same behind a PRE byte: both cores count the prefix into the instruction (PC stands on the PRE byte, the length includes it)
+    pre_byte = min(py.value(isa.OPCODES_PY, "_PRE_OPCODE_MATRIX").values())
+    rust_formulas(ctx, py, rs, rows, [sw.run_case(pre_byte, op, None, ("analyze", "lift")) for op in cf_ops], tag="+PRE", prefix_len=1)
 
 
 # ---------------------------------------------------------------------------
@@ -434,3 +458,45 @@ def pointer_destination_conflict(ctx: Ctx, py: PyProgram, rs: RustProgram, rows:
             ctx.violation("C06.10/pointer-destination", key_of(fn.file, fn.qual, "pointer side effect when the pointer is the destination"),
                           f"`MV r3,[r3++]` / `MV r3,[--r3]` with one register as pointer and destination: the Python IL leaves the {py_final} value in it, the Rust helper applies the pointer update {'only when the registers differ' if identity else 'unconditionally, after the load'} - the register ends {rs_final} in Rust", f"{fn.file}:{c_['ln']}")
     ctx.instance("C06.10/pointer-destination", "MV r3,[r3++]/[--r3] with equal registers: which write wins, Python IL vs Rust move helper", n, 3)
+
+
+def ir_frame(ctx: Ctx, rs: RustProgram, rows: dict, ok_base: list) -> None:
+    """IR stacks PC, F and IMR as they were at entry, then clears IRM - in both cores.  Python: no pushed value is read after a
+    statement of the same instruction wrote it.  Rust: every value handed to push_stack is computed before the arm first stores to
+    memory or writes a register other than the stack pointer (statement order inside the arm)."""
+    from .c05 import stale_pushes
+    from ..isa_sweep import Sweeper
+    from ..rsfacts import walk as rs_walk
+    irs = [c for c in ok_base if rows[c.opcode].cls == "IR"]
+    ctx.need(len(irs) == 1, "IR row not found")
+    c = Sweeper().run_case(None, irs[0].opcode, None, ("lift",))
+    ctx.need(not c.lift_exc and c.il_terms, "IR does not lift")
+    n = 1
+    for what in stale_pushes(c.il_terms):
+        ctx.violation("C06.11/ir-frame", key_of(isa.INSTR_PY, "IR.lift", "pushed value read after it was overwritten"),
+                      what + " - the Rust core stacks the values the registers had at entry", isa.INSTR_PY)
+    arm = isa.rs_arm_for(rs, "Ir")
+    body = arm["body"]
+    stmts = body["stmts"] if body.get("k") == "block" else [body]
+    first_write = None
+    defs_at: dict[str, int] = {}
+    npush = 0
+    for i, st in enumerate(stmts):
+        calls = [x for x in rs_walk(st) if x.get("k") in ("call", "mcall")]
+        for x in calls:
+            nm = expr_text(x["f"]).split("::")[-1] if x["k"] == "call" else x["m"]
+            if nm in ("store_traced", "store") or (nm == "set_reg" and x["args"] and expr_text(x["args"][0]) not in ("RegName::S",)):
+                if first_write is None:
+                    first_write = i
+        if st.get("k") == "let" and st.get("pat", {}).get("k") == "p_ident":
+            defs_at[st["pat"]["name"]] = i
+        for x in calls:
+            if x["k"] == "call" and expr_text(x["f"]).split("::")[-1] == "push_stack":
+                npush += 1
+                used = {p["p"] for a in x["args"] for p in rs_walk(a) if p.get("k") == "path" and p["p"] in defs_at}
+                late = [u for u in used if first_write is not None and defs_at[u] > first_write]
+                if (first_write is not None and i > first_write and any(y.get("k") == "mcall" and y["m"] in ("load", "get_reg") for a in x["args"] for y in rs_walk(a))) or late:
+                    ctx.violation("C06.11/ir-frame", key_of(rs_file(), "execute_with::Ir", "pushed value computed after the first write"),
+                                  f"the Rust IR arm pushes `{expr_text(x['args'][3])[:60]}` computed after the arm already wrote machine state (statement {first_write}): the frame may hold a new value", f"{rs_file()}:{arm['ln']}")
+    ctx.need(npush == 3, f"Rust IR arm performs {npush} pushes, expected 3")
+    ctx.instance("C06.11/ir-frame", "IR: stacked PC/F/IMR are entry values in both cores (Python IL read-after-write; Rust statement order)", n + npush, 4)
